@@ -3,7 +3,7 @@
 From Coq Require Import List NArith ZArith Bool.
 From Coq.Strings Require Import Byte.
 From RimeV Require Import Base.Bytes Cfg.Tree Cfg.Path Cfg.Typed Cfg.Api Cfg.Yaml
-  Cfg.PathProofs Cfg.TypedProofs Cfg.FormsProofs Cfg.YamlProofs Cfg.TreeProofs.
+  Cfg.PathProofs Cfg.TypedProofs Cfg.FormsProofs Cfg.YamlProofs Cfg.TreeProofs Cfg.RoundTrip.
 Import ListNotations.
 
 (** ** getters read back what setters wrote *)
@@ -181,17 +181,32 @@ Proof. exact scalar_roundtrip_noncharacter_refuted. Qed.
 Print Assumptions C18_scalar_roundtrip_noncharacter_refuted.
 
 (** ** whole trees *)
-(** The full statement [tree_roundtrip_full] (Cfg/TreeProofs.v):
-      forall t, wf_item t = true -> scalars_wf t -> load_octs (emit_octs t) = Some (prune t).
-    Proved: its base layer, a tree that is one scalar.  Missing: the induction
-    over block and flow collections (layout written by the prep_* functions read
-    back by block_node/flow_node); covered by the correspondence check only. *)
-Theorem C18_tree_roundtrip_partial : forall s,
-  wf_scalar (nums s) -> load_octs (emit_octs (Scalar s)) = Some (prune (Scalar s)).
-Proof. exact tree_roundtrip_scalar. Qed.
-Print Assumptions C18_tree_roundtrip_partial.
+(** Every config tree of the domain survives save and load, entries with null
+    values aside: for every tree whose maps are strictly sorted ([wf_item], the
+    invariant of std::map) and whose scalars and keys are in the scalar domain,
+    keys shorter than 256 bytes ([scalars_wf]; longer keys are the known
+    finding), loading the emitted document yields the tree without its null
+    entries.  Unbounded in depth, width and text length: block sequences and maps
+    to depth 2 with their indentation, flow style from depth 3, literal keys in
+    the long "? key" form, empty containers, null list elements and null map
+    values pruned.  Proved by mutual induction over items (Cfg/RoundTrip.v:
+    [flow_all] for flow context, [block_all] for block context with the group
+    indentation, the literal indentation and the output column as parameters). *)
+Theorem C18_tree_roundtrip : forall t,
+  wf_item t = true -> scalars_wf t -> load_octs (emit_octs t) = Some (prune t).
+Proof. exact tree_roundtrip. Qed.
+Print Assumptions C18_tree_roundtrip.
 
-(** A finite-domain complement (NOT the unbounded statement): the model loader
+(** Non-vacuity: a tree of the domain with a literal key, a pruned null entry, a
+    text starting with a blank and a flow collection; the emitted document is
+    spelled out. *)
+Theorem C18_tree_roundtrip_example :
+  (wf_item ex_tree = true /\ scalars_wf ex_tree) /\
+  load_octs (emit_octs ex_tree) = Some (prune ex_tree) /\ prune ex_tree <> ex_tree.
+Proof. exact (conj ex_tree_in_domain (conj (proj1 ex_tree_roundtrip) (proj1 (proj2 ex_tree_roundtrip)))). Qed.
+Print Assumptions C18_tree_roundtrip_example.
+
+(** A finite-domain sanity sweep, now subsumed by [C18_tree_roundtrip]: the model loader
     inverts the model emitter on every one of the 34782 trees of the generated
     family [sweep_trees] (all lists/maps of at most two entries over null and four
     scalar styles, wrapped up to four times in lists and maps with plain and
